@@ -35,9 +35,9 @@ func main() {
 		fmt.Fprintln(os.Stderr, "LOAD ERROR:", err)
 		os.Exit(3)
 	}
-	timeout := 20 * time.Second
+	timeout := 30 * time.Second
 	if *tier == "thorough" {
-		timeout = 60 * time.Second
+		timeout = 90 * time.Second
 	}
 	if os.Getenv("GVC_FIELD_WRITERS") != "" {
 		fw := eng.fieldWriters()
